@@ -20,4 +20,5 @@ BM2 == {"exact", "unb"}
 BM4 == {"exact", "loose", "zero", "unb"}
 BM1 == {"exact"}
 SwitchOn == TRUE
+FixOff == FALSE
 =============================================================================
